@@ -521,7 +521,13 @@ where
     }
 
     fn output_delay(&self) -> usize {
-        (self.interpolator.len() as f64 * self.resample_ratio / 2.0) as usize
+        // The interpolation kernel is centred sinc_len/2 frames after the position it is
+        // applied at, which cancels the initial offset of -sinc_len/2: the first output frame
+        // is taken at input time 1/ratio - 1 + 1/oversampling_factor. An input event at frame n
+        // therefore appears at output frame n*ratio + ratio*(1 - 1/oversampling_factor) - 1.
+        let oversampling = self.interpolator.nbr_sincs() as f64;
+        let delay = self.resample_ratio * (1.0 - 1.0 / oversampling) - 1.0;
+        delay.max(0.0).round() as usize
     }
 
     fn nbr_channels(&self) -> usize {
@@ -887,7 +893,13 @@ where
     }
 
     fn output_delay(&self) -> usize {
-        (self.interpolator.len() as f64 * self.resample_ratio / 2.0) as usize
+        // The interpolation kernel is centred sinc_len/2 frames after the position it is
+        // applied at, which cancels the initial offset of -sinc_len/2: the first output frame
+        // is taken at input time 1/ratio - 1 + 1/oversampling_factor. An input event at frame n
+        // therefore appears at output frame n*ratio + ratio*(1 - 1/oversampling_factor) - 1.
+        let oversampling = self.interpolator.nbr_sincs() as f64;
+        let delay = self.resample_ratio * (1.0 - 1.0 / oversampling) - 1.0;
+        delay.max(0.0).round() as usize
     }
 
     fn set_resample_ratio(&mut self, new_ratio: f64, ramp: bool) -> ResampleResult<()> {
